@@ -65,10 +65,10 @@ CHECKS["C04"] = {"text": "Proved on the model: every worker newly allocated to a
     "technique": "Coq proof: induction principle for __allocate + inductive invariant over runs; oracle on new allocations + correspondence of allocation lists at updated/allocated"}
 CHECKS["C05"] = {"text": "Proved on the model: simulate is total; no snapshot other than the final update has a step index >= max_time and at most max_time - start time steps are recorded; "
     "status is FINISHED_SUCCESS iff all tasks are FINISHED, FINISHED_FAILURE only with time >= max_time, and one of the two is always reported; a non-automatic non-exempt task that no worker "
-    "can serve (skill, team, fixed list) is never allocated, never WORKING/FINISHED, and the run does not report success. LIVENESS is proved for the class: acyclic network with FS/SS links, no facilities or components, "
+    "can serve (skill, team, fixed list) is never allocated, never WORKING/FINISHED, and the run does not report success. LIVENESS is proved for the class: acyclic network with any mix of the four dependency kinds where a task with an incoming FF/SF link has workers of its own (a worker skilled for it is skilled for nothing else), no facilities or components, "
     "every non-automatic task has an eligible worker (skill, team, fixed ids), positive lower bound delta on skills and automatic rates, all absences before a horizon H: every freshly initialised run reports "
     "FINISHED_SUCCESS whenever max_time >= H + sum over tasks of (1 + ceil(work x (1 - progress) / delta)), for every priority rule, team structure, solo flag and task order (a natural-number measure over the unfinished "
-    "tasks never grows and drops in every step after H). Outside that class (facilities, placement, FF/SF links) liveness is searched by the oracle on a feasible stream; it is the clause that found the SS/SF gate defects.",
+    "tasks never grows and drops in every step after H). Outside that class (facilities, placement) liveness is searched by the oracle on a feasible stream; it is the clause that found the SS/SF gate defects.",
     "note": COMMON_NOTE + " PARTIAL: liveness outside the stated class is searched. 'simulate always returns' for the implementation (runtime exceptions) can only be searched.",
     "technique": "Coq proof: induction over the trace shape + stuck-task invariant + liveness by a decreasing measure (least-rank unfinished task, greedy allocation maximality, resource-state invariant); oracle search on the feasible stream; correspondence on time/status/task states"}
 CHECKS["C06"] = {"text": "Proved on the model: (a) after __update no task with an open ready gate is NONE; (b) an automatic task without component that is READY after __update is WORKING after the "
@@ -85,8 +85,8 @@ CHECKS["C10"] = {"text": "Proved on the model: at a project-wide absence step no
     "PERT values (SPT, LPT, LRPT, SRPT, LWRPL, SWRPL) on any network and for TSLACK / EST on finish-to-start DAGs with non-negative work (all critical-path values shift by the number of absence steps, so slack and the order by EST are unchanged), with the auto-task flag off (or on when the project has no automatic task), no individual absence lists, disjoint component trees, a fresh run that succeeds: remove_absence_time_list applied to the result "
     "of the run with ANY absence list (any order, duplicates, steps beyond the end) has the same time, status, live state and the same logs and cost lists at every level as the run without absence (lock-step "
     "simulation on the behaviour-relevant key of the state: every phase computes the key of its result from the key of its argument, an absence step is a stutter, __update is idempotent on the key; "
-    "popping sorted(set(L)) from a log keeps exactly the entries at unlisted positions); PERT scratch values are not compared. PARTIAL: that the ABSENCE state persists through the rest of the step, and the "
-    "deletion clause for TSLACK / EST on networks with SS/FF/SF links and for FIFO, are searched by the oracle; for FIFO one finding is recorded (known_findings.json).",
+    "popping sorted(set(L)) from a log keeps exactly the entries at unlisted positions); PERT scratch values are not compared. at run level an individually absent worker or facility is ABSENCE in every allocated / performed / recorded snapshot of the step and so contributes and costs nothing. PARTIAL: the "
+    "deletion clause for TSLACK / EST on networks with SS/FF/SF links and for FIFO, is searched by the oracle; for FIFO one finding is recorded (known_findings.json).",
     "note": COMMON_NOTE.replace("no axioms (Print Assumptions: closed under the global context)", "the deletion theorem uses one standard-library axiom, functional_extensionality_dep (through the idempotence of __update); the other C10 theorems are closed under the global context") +
             " PARTIAL: deletion clause searched for rules 0, 1 outside FS DAGs and for rule 4; KNOWN FINDING C10/f-fifo.",
     "technique": "Coq proof: phase characterisations + ghost-history log representation + key congruence / stutter simulation between the two runs; oracle (incl. deletion vs absence-free run) + full-state correspondence"}
@@ -137,9 +137,11 @@ CHECKS["C16"] = {"text": "harness/schema.py translates the save format of the CU
     "constructor parameter is stored in, and the ID->object relinking pass. Proved: a schema accepted by schema_ok round-trips (export (import (export o)) = export o, same keys in the same order) for ANY object and "
     "ANY conversions satisfying write(read(write v)) = write v per compatible shape pair; the schema generated from the current source is accepted for all 11 saved classes (vm_compute over the finite schema, stated "
     "as a forallb theorem); every constructor parameter outside an explicit exempt list (back references, additional-work / quality / error bookkeeping read by no base-class method) is read from the file and every "
-    "key read is written. The translator is tied to the running code by comparing the keys of every node of every saved document with the generated schema. Reference resolution, value-for-value equality of real files "
+    "key read is written. The conversion law is discharged for a concrete reading of the shapes (Model/JsonConcrete.v: JSON values, enum members, object references looked up by ID in the project being read, "
+    "timedeltas, datetimes with microseconds, nested objects; int(), float(), x.ID, str(total_seconds()), strftime and their readers, including lossy conversions and ill-typed values), giving the unconditional "
+    "theorem C16_roundtrip_concrete; the writer side of that reading is compared with the Python expressions on sample values by vm_compute. The translator is tied to the running code by comparing the keys of every node of every saved document with the generated schema. Reference resolution, value-for-value equality of real files "
     "at four life stages, re-simulation of the restored project and 'writing never fails' are searched by the oracle.",
-    "note": COMMON_NOTE + " PARTIAL: the per-shape conversion law (e.g. BaseTaskState(int(s)) = s, get_task_list(ID=t.ID)[0] is t for unique IDs) is a Section hypothesis of the theorem, exercised by the oracle's "
+    "note": COMMON_NOTE + " PARTIAL: the per-shape conversions are modelled (JsonConcrete.v), their writer side compared with Python on samples; the reader side and uniqueness of IDs are exercised by the oracle's "
     "write/read/write comparison, not proved about Python; re-simulation equality (c) is the oracle plus C09/C15 on the model side.",
     "technique": "Coq proof over a schema regenerated from the source by a Python-ast translator (generic round-trip theorem + vm_compute acceptance of the generated schema) + schema/runtime key correspondence + round-trip oracle at four life stages"}
 CHECKS["C12"] = {"text": "The model's update_pert (forward pass, critical path length, backward pass: frontier lists, relaxation with the code's comparison directions and the -1 sentinel, fuel) is proved to compute the CPM "
